@@ -65,14 +65,13 @@ extern "C" void harness_c14_import_order() {
   // adds no prefix).  `&parser` is what the real lambda passes down as the reference scope.
   CPPScope *global = new CPPScope(nullptr, CPPNameComponent(""), V_public);
 #if SYMBOLIC
-  // Outer classes "N?" and "S?"... with symbolic letters; nested classes "E?" with symbolic letters: any two classes
-  // whose qualified names differ
-  char o1 = nondet_char(), o2 = nondet_char(), i1 = nondet_char(), i2 = nondet_char();
-  ASSUME(o1 >= 'a' && o1 <= 'z' && o2 >= 'a' && o2 <= 'z' && i1 >= 'a' && i1 <= 'z' && i2 >= 'a' && i2 <= 'z');
-  ASSUME(o1 != o2 || i1 != i2);
-  char on1[3] = {'T', o1, 0}, on2[3] = {'T', o2, 0}, in1[3] = {'E', i1, 0}, in2[3] = {'E', i2, 0};
-  CPPStructType *outer1 = make_class(global, std::string(on1));
-  CPPStructType *outer2 = make_class(global, std::string(on2));
+  // two different enclosing classes, each with a nested class E<letter> whose letter is symbolic: the nested classes
+  // may or may not share their unscoped name
+  char i1 = nondet_char(), i2 = nondet_char();
+  ASSUME(i1 >= 'a' && i1 <= 'z' && i2 >= 'a' && i2 <= 'z');
+  char in1[3] = {'E', i1, 0}, in2[3] = {'E', i2, 0};
+  CPPStructType *outer1 = make_class(global, std::string("Ta"));
+  CPPStructType *outer2 = make_class(global, std::string("Sb"));
   CPPStructType *a = make_class(outer1->get_scope(), std::string(in1));
   CPPStructType *b = make_class(outer2->get_scope(), std::string(in2));
   check_strict_order(a, b);
